@@ -109,9 +109,10 @@ macro_rules! real_function {
         gen_ends_any(r, n).0
     };
     let n = ends.len();
-    let coeffs: Vec<Vec<f64>> = (0..n)
+    let mut coeffs: Vec<Vec<f64>> = (0..n)
         .map(|_| (0..<T as Nums>::LEN).map(|_| r.mixed(2.0)).collect())
         .collect();
+    repeat_some_pieces(r, &mut coeffs);
     let pw: Piecewise<T> = pw_from(&ends, &coeffs);
     let mut h = hash_bits(3, pw_nums(&pw).iter().map(|e| e.to_bits()));
     h = mix2(h, <T as Nums>::NAME.len() as u64 ^ (<T as Nums>::LEN as u64) << 8);
